@@ -416,6 +416,7 @@ func c02OneCasePast(st *Store, es []entrySpec, how string, fanout int, nonMember
 		want[e.Name] = e.Cid
 	}
 	ls := st.LinkSystem()
+	st.RequireSession = len(es)%3 == 0 // (the store serves only loads that carry the request's context)
 	for _, reifier := range []string{"unixfs", "unixfs-preload"} {
 		dir, err := loadReified(ls, root, reifier)
 		if err != nil {
@@ -471,6 +472,24 @@ func TestC02_P_DirIsMap(t *testing.T) {
 				}
 			}
 			ev.Count("inseparable-pair", 1)
+		}
+		if how == "sharded" && len(es) > 0 && rapid.IntRange(0, 5).Draw(t, "selfRef") == 0 {
+			// entries that point INTO the directory's own structure: their target is the block of one of the directory's
+			// child shards (a link to a sub-shard is a link like any other: "ipfs ls" of a shard CID works, and tools that
+			// pin or index blocks produce such listings). The link of an entry and the link of a shard are then equal; a
+			// reader that recognises shards by their link instead of by their name takes the entry for a shard.
+			pst := NewStore()
+			if proot, _, perr := c02Build(pst, es, how, fanout); perr == nil {
+				if tr, terr := pst.ShardTree(proot); terr == nil {
+					if shards := tr.ShardsPreOrder(); len(shards) > 0 {
+						for i := rapid.IntRange(1, 2).Draw(t, "selfRefs"); i > 0; i-- {
+							c := shards[rapid.IntRange(0, len(shards)-1).Draw(t, "selfRefShard")]
+							es = append(es, entrySpec{Name: fmt.Sprintf("self-ref-%d-%d", salt, i), Cid: c, Tsize: 1})
+						}
+						classes = append(classes, "self-ref")
+					}
+				}
+			}
 		}
 		var depth int
 		var sharded bool
